@@ -76,3 +76,55 @@ Theorem failed_retention_save_removes_nothing : forall w d ids f x n,
   fs_has (g_fs (step_retain w d ids f)) n = fs_has (g_fs w) n.
 Proof. exact retain_failed_keeps_wals. Qed.
 Print Assumptions failed_retention_save_removes_nothing.
+
+(* ---------------------------------------------------------------------------------------------------------------------------
+   retained_files_exist_partial: the invariant, by induction over EVERY history of the world model (writes, flush incl. a failing
+   table save, compaction, Checkpoint and its asynchronous part incl. failing WAL / list saves, retention update + Save incl.
+   failing saves, restore into the same or a fresh directory, collection of every unreachable table object under every
+   neighbour answer, crash, drop) whose steps satisfy the monitor [step_ok] (Proofs/C09_Inv.v):
+     - a collection removes no file that a party OTHER than the collecting object needs ([gc_ok]; its failure by a table object
+       created by a dropped database object is finding D11 - [d11_pattern]; its failure by an object opened from a document is an
+       unsound ownership / neighbour answer);
+     - the Destroy of a saved retention update removes no WAL another party needs ([destroy_ok]);
+     - Checkpoint ids are fresh in the list, operations address live objects, a restore uses a handle that no saved update
+       dropped and, into the source's directory, only when no live object writes there; compaction outputs are table files.
+   What an object does to itself and to the durable list of its own directory (own collection, own Destroy, own saves -
+   successful or failing) is PROVED safe, not assumed. *)
+From RV Require Import Proofs.C09_Inv.
+
+Theorem retained_files_exist_partial : forall mem wm ops,
+  run_ok (init_world mem wm) ops ->
+  let w := run (init_world mem wm) ops in
+  (forall id D, In (id, D) (g_handles w) -> ~ In id (g_dropped w) ->
+     exists docs d, fs_get (g_fs w) (D, 2, 0) = Some (FCk docs) /\ find_doc docs id = Some d /\
+                    fs_has (g_fs w) (dc_wal d) = true /\ forall t, In t (dc_tables d) -> fs_has (g_fs w) (td_name t) = true) /\
+  (forall i x t, nth_error (g_dbs w) i = Some x -> x_state x = Live -> In t (d_tables (x_core x)) -> fs_has (g_fs w) (t_name t) = true).
+Proof. exact retained_files_exist_invariant. Qed.
+Print Assumptions retained_files_exist_partial.
+
+(* the invariant is preserved by every single step *)
+Theorem retained_files_exist_step : forall w o, Safe w -> step_ok w o -> Safe (step w o).
+Proof. exact safe_step. Qed.
+Print Assumptions retained_files_exist_step.
+
+(* the class predicate of finding D11, and that it is a failure of the monitor *)
+Theorem d11_is_a_monitor_failure : forall w, d11_pattern w -> ~ gc_ok w.
+Proof. exact d11_pattern_violates_monitor. Qed.
+Print Assumptions d11_is_a_monitor_failure.
+
+(* non-vacuity: a history with a checkpoint, a retention update whose save fails, and a collection satisfies the monitor *)
+Example monitored_history_exists :
+  run_ok (init_world 60 1000)
+    [OPut 0 [0;0;97] [49] false; OCkpt 0 1; OStepCkpt 0 1; OStepCkpt 0 1; ORetainF 0 [1] 1; OGc; OCrash 0; ORestore 1 1 false OwnAll NbNone].
+Proof.
+  cbn [run_ok]. repeat match goal with |- _ /\ _ => split end; try exact I.
+  - intros x H. vm_compute in H. inversion H; subst. split; [reflexivity|]. cbn. intros [].
+  - intros x H. vm_compute in H. inversion H; subst. split; [reflexivity|]. intros c [].
+  - intros x H. vm_compute in H. inversion H; subst. split; [reflexivity|]. intros c [].
+  - intros x H. vm_compute in H. inversion H; subst. split; [reflexivity|]. intro E. vm_compute in E. discriminate.
+  - intros i x n Hx NC Hn. exfalso.
+    destruct i as [|i]; [|destruct i; vm_compute in Hx; discriminate]. vm_compute in Hx. inversion Hx; subst. vm_compute in Hn. exact Hn.
+  - vm_compute. intros [].
+  - intros _ hd i x HD Hx L. vm_compute in HD. inversion HD; subst hd.
+    destruct i as [|i]; [|destruct i; vm_compute in Hx; discriminate]. vm_compute in Hx. inversion Hx; subst. discriminate L.
+Qed.
